@@ -50,9 +50,8 @@ Proof. intros P H sched c s' l E. apply H; [apply Inv_run|assumption]. Qed.
 
 (* ---- C19_count ----------------------------------------------------------- *)
 
-(* at most one interim response per parser object, outside the class of F5/F6 *)
-Theorem count_le_one : forall sched i,
-  ~ In i (bad (run sched)) -> cnt i (outlog (run sched)) <= 1.
+(* at most one interim response per request (parser object) *)
+Theorem count_le_one : forall sched i, cnt i (outlog (run sched)) <= 1.
 Proof. intros sched i. apply (C_cnt _ (iC _ (Inv_run sched))). Qed.
 
 (* a client that waits is not left waiting: whenever nobody is inside a critical
@@ -64,10 +63,9 @@ Theorem never_left_waiting : forall sched q,
   let s := run sched in
   rlock s = false -> connected s = true -> close_when_flushed s = false ->
   requests s = [] -> request s = Some q -> a_hf q = true -> g_asked q = true ->
-  ~ In (rid q) (bad s) ->
   cnt (rid q) (outlog s) = 1 /\ a_expect q = false /\ sent_continue s = true.
 Proof.
-  intros sched q s Hrl Hcon Hcwf Hrs Hq Hhf Hask Hb.
+  intros sched q s Hrl Hcon Hcwf Hrs Hq Hhf Hask.
   destruct (Inv_run sched) as [HA HB HC]. fold s in HA, HB, HC.
   assert (Hns : is_sending s = false).
   { unfold is_sending. destruct (A_lock s HA) as [_ L].
@@ -77,7 +75,7 @@ Proof.
       rewrite L in Hrl; [discriminate|right; assumption].
     - rewrite L in Hrl; [discriminate|left; discriminate].
     - rewrite L in Hrl; [discriminate|left; discriminate]. }
-  pose proof (C_good s HC q Hq Hb) as G. unfold good_cur in G. rewrite Hns in G.
+  pose proof (C_good s HC q Hq) as G. unfold good_cur in G. rewrite Hns in G.
   destruct G as (G1 & G2 & G3).
   assert (He : a_expect q = false).
   { destruct (a_expect q) eqn:E; [|reflexivity]. exfalso. eapply (C_wait s HC); eauto. }
@@ -88,10 +86,10 @@ Qed.
    deferred: the flag is still set and nothing has been sent for the object *)
 Theorem deferred_while_queued : forall sched q,
   let s := run sched in
-  rlock s = false -> request s = Some q -> a_expect q = true -> ~ In (rid q) (bad s) ->
+  rlock s = false -> request s = Some q -> a_expect q = true ->
   cnt (rid q) (outlog s) = 0.
 Proof.
-  intros sched q s Hrl Hq He Hb.
+  intros sched q s Hrl Hq He.
   destruct (Inv_run sched) as [HA HB HC]. fold s in HA, HB, HC.
   assert (Hns : is_sending s = false).
   { unfold is_sending. destruct (A_lock s HA) as [_ L].
@@ -101,7 +99,7 @@ Proof.
       rewrite L in Hrl; [discriminate|right; assumption].
     - rewrite L in Hrl; [discriminate|left; discriminate].
     - rewrite L in Hrl; [discriminate|left; discriminate]. }
-  pose proof (C_good s HC q Hq Hb) as G. unfold good_cur in G. rewrite Hns in G.
+  pose proof (C_good s HC q Hq) as G. unfold good_cur in G. rewrite Hns in G.
   destruct G as (G1 & G2 & G3). unfold sent_for in G2. rewrite He, andb_false_r in G2. assumption.
 Qed.
 
@@ -290,8 +288,8 @@ Proof.
     destruct (do_send s false) as [s1 l1] eqn:Ed.
     destruct (io_complete s1 more) as [s2 l2] eqn:Ec. inv_some.
     unfold do_send in Ed. destruct (request s) as [q|] eqn:Eq.
-    + assert (D : askers s1 = [] /\ request s1 = Some (q <| a_completed := false |>)).
-      { destruct (a_completed q); inv_some; simpl; auto. }
+    + assert (D : askers s1 = [] /\ request s1 = Some q).
+      { inv_some; simpl; auto. }
       destruct D as [D1 D2].
       pose proof (io_complete_spec _ _ _ _ Ec) as S.
       destruct S as (S1 & S2 & S3 & S4 & S5 & S6 & S8 & S9 & S10 & S11).
@@ -322,8 +320,7 @@ Proof.
   - destruct (nth_error (active s) i) as [[]|]; try discriminate.
     destruct (do_send s true) as [s1 l1] eqn:Ed. inv_some.
     unfold do_send in Ed. destruct (request s) as [q|] eqn:Eq.
-    + destruct (a_completed q); inv_some; split; simpl; auto;
-        intros q' Hq'; inv_some; simpl; auto.
+    + inv_some; split; simpl; auto. rewrite Eq. assumption.
     + inv_some. split; simpl; auto. rewrite Eq. discriminate.
   - destruct (io s); try discriminate. inv_some. split; auto.
   - inv_some. split; auto.
@@ -359,68 +356,42 @@ Qed.
 
 (* ---- C19_once (the part that belongs here) -------------------------------- *)
 
-(* a queued request is complete, not empty, and -- outside the class of F5/F6 --
-   exactly its own header block was parsed into it (none for the 431 stub) *)
+(* a queued request is complete, not empty, and exactly its own header block was
+   parsed into it (none for the 431 stub) *)
 Theorem queued_own_head : forall sched r,
   In r (requests (run sched)) ->
-  a_completed r = true /\ a_empty r = false /\ (~ In (rid r) (bad (run sched)) -> g_heads r <= 1).
+  a_completed r = true /\ a_empty r = false /\ g_heads r <= 1.
 Proof. intros sched r. apply (C_queued _ (iC _ (Inv_run sched))). Qed.
 
-(* what makes an object "bad": send_continue found completed = True *)
-Theorem bad_iff_reset : forall sched c s' l,
-  step (run sched) c = Some (s', l) ->
-  forall i, In i (bad s') -> In i (bad (run sched)) \/ (c = CIOSend /\ In (LReset i) l).
+(* the request is never lost: except inside a turn of received() that is about to
+   call send_continue, the object under construction is NOT completed -- a
+   completed request has been queued (or dropped as empty) in the step that
+   completed it or in the send_continue step that follows *)
+Theorem completed_never_kept : forall sched q,
+  (forall m, io (run sched) <> IOSend m) -> request (run sched) = Some q -> a_completed q = false.
+Proof. intros sched q H. apply (C_nc _ (iC _ (Inv_run sched)) H). Qed.
+
+(* and the step that ends the turn queues it: after CIOSend nothing completed stays *)
+Theorem send_then_queue : forall sched s' l,
+  step (run sched) CIOSend = Some (s', l) ->
+  forall q, request (run sched) = Some q -> a_completed q = true ->
+  request s' = None /\ sent_continue s' = false /\
+  (a_empty q = false -> requests s' = [q] /\ In (LQueue (rid q)) l /\ In LAddTask l).
 Proof.
-  intros sched c s' l H i Hi. set (s := run sched) in *.
+  intros sched s' l H q Hq Hc. set (s := run sched) in *.
   destruct (Inv_run sched) as [HA HB HC]. fold s in HA, HB, HC.
-  destruct c; simpl in H.
-  - destruct (io s); try discriminate. destruct (rlock s); try discriminate.
-    destruct (will_close s || close_when_flushed s); inv_some; auto.
-  - left. destruct (step_parse_inv _ _ _ _ _ H) as (Eio & q0 & fresh & q1 & Hq0 & Ha & Hcase).
-    pose proof (after_parse_fields s q1 fresh) as F. cbv zeta in F, Hcase.
-    destruct F as (F1 & F2 & F3 & F4 & F5 & F6 & F7 & F8 & F9 & F10 & F11 & F13 & F14).
-    destruct Hcase as [[Hw ->]|[Hw [l' Hc]]].
-    + simpl in Hi. congruence.
-    + pose proof (io_complete_spec _ _ _ _ Hc) as S.
-      destruct S as (S1 & S2 & S3 & S4 & S5 & S6 & S8 & S9 & S10 & S11). congruence.
-  - destruct (io s) as [| |more] eqn:Eio; try discriminate.
-    destruct (do_send s false) as [s1 l1] eqn:Ed.
-    destruct (io_complete s1 more) as [s2 l2] eqn:Ec. inv_some.
-    destruct (A_iosend s HA more Eio) as [Ers [q Eq]].
-    pose proof (io_complete_spec _ _ _ _ Ec) as S.
-    destruct S as (S1 & S2 & S3 & S4 & S5 & S6 & S8 & S9 & S10 & S11).
-    rewrite S7 in Hi. unfold do_send in Ed. rewrite Eq in Ed.
-    destruct (a_completed q); inv_some; simpl in Hi; auto.
-    destruct Hi as [<-|Hi]; auto. right. split; auto. simpl. auto.
-  - destruct (queued s); try discriminate. inv_some. auto.
-  - destruct (nth_error (active s) i0) as [[]|]; try discriminate.
-    destruct (requests s); inv_some; auto.
-  - destruct (nth_error (active s) i0) as [[]|]; try discriminate. inv_some. auto.
-  - destruct (nth_error (active s) i0) as [[]|]; try discriminate. inv_some. auto.
-  - destruct (nth_error (active s) i0) as [[]|]; try discriminate.
-    destruct (rlock s); try discriminate. inv_some. auto.
-  - destruct (nth_error (active s) i0) as [[]|]; try discriminate.
-    destruct (rlock s); try discriminate. destruct (requests s) as [|r rest]; [inv_some; auto|].
-    cbn [connected requests request sent_continue set eta_state] in H.
-    destruct (connected s && negb (is_nil rest)); [inv_some; auto|].
-    destruct (connected s && wants_continue (s <| requests := rest |>)).
-    + destruct (request s); try discriminate. inv_some. auto.
-    + inv_some. auto.
-  - (* the worker never finds completed = True *)
-    left. destruct (nth_error (active s) i0) as [w0|] eqn:En; try discriminate.
-    destruct w0; try discriminate.
-    destruct (do_send s true) as [s1 l1] eqn:Ed. inv_some.
-    destruct (worker_at _ _ _ HA En) as (Hact & -> & Hq).
-    pose proof (A_wk s HA WSend) as W. rewrite Hact in W. specialize (W (or_introl eq_refl)).
-    simpl in W. destruct W as (Ers & Erl & Eio & q & Eq).
-    pose proof (do_send_spec _ _ _ _ Ed q Eq) as D.
-    destruct D as (D1 & D2 & D3 & D4 & D5 & D6 & D7 & D8 & D9 & D10 & D11 & D12 & D13 & D14).
-    simpl in Hi. rewrite D14 in Hi.
-    assert (Hc : a_completed q = false).
-    { apply (C_nc s HC); [intros m; rewrite Eio; discriminate|assumption]. }
-    rewrite Hc in Hi. assumption.
-  - destruct (io s); try discriminate. inv_some. auto.
-  - inv_some. auto.
+  simpl in H. destruct (io s) as [| |more] eqn:Eio; try discriminate.
+  destruct (do_send s false) as [s1 l1] eqn:Ed.
+  destruct (io_complete s1 more) as [s2 l2] eqn:Ec. inv_some.
+  destruct (A_iosend s HA more Eio) as [Ers _].
+  pose proof (do_send_spec _ _ _ _ Ed q Hq) as D.
+  destruct D as (D1 & D2 & D3 & D4 & D5 & D6 & D7 & D8 & D9 & D10 & D11 & D12 & D13 & D14).
+  unfold io_complete in Ec. rewrite D13, Hc in Ec.
+  destruct (a_empty q) eqn:Ee; simpl in Ec.
+  - destruct more; inv_some; simpl; repeat split; auto; discriminate.
+  - rewrite D1, Ers in Ec. simpl in Ec.
+    destruct more; inv_some; simpl; repeat split; auto;
+      apply in_or_app; right; simpl; auto.
 Qed.
 
 (* ---- the hypotheses are satisfiable: concrete schedules ------------------- *)
@@ -434,7 +405,6 @@ Definition sched_worker_sends : list choice :=
 Example ex_worker_sends :
   outlog (run sched_worker_sends) = [TFinal 0; TInterim 1 true] /\
   rlock (run sched_worker_sends) = false /\ requests (run sched_worker_sends) = [] /\
-  bad (run sched_worker_sends) = [] /\
   (exists q, request (run sched_worker_sends) = Some q /\ rid q = 1 /\ a_hf q = true /\ g_asked q = true).
 Proof. vm_compute. repeat split. eexists. repeat split. Qed.
 
@@ -444,16 +414,17 @@ Definition sched_io_sends : list choice :=
    CIOEnter; CIOParse (EvBody true) false; CTake; CWBegin 0; CWWrite 0].
 
 Example ex_io_sends :
-  outlog (run sched_io_sends) = [TInterim 0 false; TFinal 0] /\ bad (run sched_io_sends) = [].
+  outlog (run sched_io_sends) = [TInterim 0 false; TFinal 0].
 Proof. vm_compute. auto. Qed.
 
-(* findings F5/F6 in the abstract model: the request that is complete (or refused)
-   at the end of its header block is answered 100 Continue and never queued *)
-Definition sched_f5 : list choice :=
+(* the class of the former findings F5/F6: a request complete at the end of its
+   header block gets its (one) interim response and is queued at once *)
+Definition sched_complete_at_head : list choice :=
   [CIOEnter; CIOParse (EvHead (Some true) false true) false; CIOSend].
 
-Example ex_f5 :
-  outlog (run sched_f5) = [TInterim 0 false] /\ requests (run sched_f5) = [] /\
-  queued (run sched_f5) = 0 /\ bad (run sched_f5) = [0] /\
-  (exists q, request (run sched_f5) = Some q /\ a_completed q = false /\ a_body q = false).
-Proof. vm_compute. repeat split. eexists. repeat split. Qed.
+Example ex_complete_at_head :
+  outlog (run sched_complete_at_head) = [TInterim 0 false] /\
+  map rid (requests (run sched_complete_at_head)) = [0] /\
+  queued (run sched_complete_at_head) = 1 /\ request (run sched_complete_at_head) = None /\
+  sent_continue (run sched_complete_at_head) = false.
+Proof. vm_compute. repeat split. Qed.
